@@ -9,6 +9,7 @@
 -/
 import DfModel.Mech.HashJoin
 import DfModel.Proofs.C05d
+import DfModel.Proofs.C05e
 namespace DfModel.Props.C05
 open DfModel.Mech.Join DfModel.Mech.HashJoin DfModel.Proofs.C05
 open List
@@ -41,6 +42,17 @@ theorem visited_exactly_matched (mk : MapKind) (c : Cfg) (L : List Row) (he : El
     i ∈ visitedAll mk c L batches ↔
       (c.jt.needFinal = true ∧ ∃ r ∈ batches.flatMap (·.rows), c.matches l r = true) := by
   rw [visitedAll_iff mk c L he batches (l, i) hl, any_eq_true]
+
+/-- **Partitioned mode** (`PartitionMode::Partitioned`): both inputs are split by ANY function of
+    the key (matching rows have equal keys, hence the same partition), every partition is joined by
+    its own hash join (own map, own bitmap, own final emission) and the outputs are concatenated —
+    still the spec, for all ten join types. -/
+theorem partitionedHashJoin_refines (mk : MapKind) (c : Cfg) (nparts : Nat) (part : List Val → Nat)
+    (hpart : ∀ k, part k < nparts) (L R : List Row) (he : Eligible mk c L)
+    (batchesOf : Nat → List Batch)
+    (hR : ∀ k, (batchesOf k).flatMap (·.rows) = R.filter fun r => part (c.kr r) == k) :
+    partitionedHashJoin mk c nparts part L batchesOf ~ join c.jt c.matches c.wl c.wr L R :=
+  partitionedHashJoin_perm mk c nparts part hpart L R he batchesOf hR
 
 /-- chunking is unobservable: any two chunkings of the same probe batches emit the same bag -/
 theorem chunking_irrelevant (mk : MapKind) (c : Cfg) (L : List Row) (he : Eligible mk c L)
